@@ -584,13 +584,28 @@ func (h *vH) runInterleaved(n int, groups [][]vBase) {
 
 // runRealGater: the real core.NewDutyGater in front of handle.
 func (h *vH) runRealGater(t *testing.T, n int) {
-	const spe, allowed = 4, 2
+	// clocks at / after genesis (slot duration 1 s, 4 slots per epoch)
+	var after []time.Duration
+	for _, curSlot := range []int64{0, 5, 41, 100_000} {
+		after = append(after, time.Duration(curSlot)*time.Second+300*time.Millisecond)
+	}
+	h.runRealGaterAt(t, n, "real-gater", "env-gater-real", time.Second, 4, after)
+	// clocks BEFORE genesis (12 s slots, 32 per epoch): the current slot is 0 (epoch 0) until genesis, so exactly the
+	// duties of epochs 0..allowed are allowed; an unsigned wrap of the negative slot count would allow everything
+	const sd, spe = 12 * time.Second, 32
+	h.runRealGaterAt(t, n, "real-gater-pregenesis", "gater-pregenesis-wrap", sd, spe,
+		[]time.Duration{-time.Second, -sd, -sd - time.Second, -spe * sd, -365 * 24 * time.Hour})
+}
+
+// runRealGaterAt: the REAL core.NewDutyGater and the REAL deadliner (core.NewDutyDeadlineFunc) on one fake clock in
+// front of handle, for clocks at the given offsets from genesis, with boundary duty slots.
+func (h *vH) runRealGaterAt(t *testing.T, n int, kind, class string, slotDur time.Duration, spe uint64, offsets []time.Duration) {
+	const allowed = 2
 	genesis := time.Unix(1_700_000_000, 0)
-	slotDur := time.Second
 	ctx, cancel := context.WithCancel(context.Background())
 	defer cancel()
 	bmock, err := beaconmock.New(ctx, beaconmock.WithGenesisTime(genesis),
-		beaconmock.WithSlotDuration(slotDur), beaconmock.WithSlotsPerEpoch(spe))
+		beaconmock.WithSlotDuration(slotDur), beaconmock.WithSlotsPerEpoch(int(spe)))
 	if err != nil {
 		t.Fatal(err)
 	}
@@ -598,25 +613,29 @@ func (h *vH) runRealGater(t *testing.T, n int) {
 	if err != nil {
 		t.Fatal(err)
 	}
-	w := h.newWorld(n, "real-gater")
+	w := h.newWorld(n, kind)
 	defer w.finish()
-	for _, curSlot := range []uint64{0, 5, 41, 100_000} {
-		now := genesis.Add(time.Duration(curSlot) * slotDur).Add(300 * time.Millisecond)
+	for _, off := range offsets {
+		now := genesis.Add(off)
 		clock := clockwork.NewFakeClockAt(now)
-		// the REAL gater and the REAL deadliner (real deadline function) on one fake clock
 		gater, err := core.NewDutyGater(ctx, bmock, core.WithDutyGaterForT(t, clock.Now, allowed))
 		if err != nil {
 			t.Fatal(err)
+		}
+		// mathematically: the current slot is floor((now - genesis) / slotDuration), and 0 before genesis
+		var curSlot uint64
+		if off > 0 {
+			curSlot = uint64(off / slotDur)
 		}
 		curEpoch := curSlot / spe
 		e := vEnvDefault()
 		e.gater = fmt.Sprintf("(GReal %d %d %d)", curEpoch, spe, allowed)
 		e.gaterFunc = gater
 		e.realDL = core.NewDeadlinerForT(ctx, t, deadlineFunc, clock)
-		e.realTerm = fmt.Sprintf("%d %d %d", now.Sub(genesis).Nanoseconds(), slotDur.Nanoseconds(), spe)
+		e.realTerm = fmt.Sprintf("%s %d %d", vZ(off.Nanoseconds()), slotDur.Nanoseconds(), spe)
 		edge := (curEpoch + allowed) * spe
 		slots := []uint64{0, curSlot, edge, edge + spe - 1, edge + spe, edge + spe + 1, 1 << 31, 1 << 32, 1 << 40,
-			1<<63 - 1, 1 << 63, 1<<63 + curSlot, 1<<63 + curSlot + 1, 1<<63 + edge + spe, 1<<64 - 1, 1<<64 - spe, (1<<64 - 1) / spe}
+			1<<63 - 1, 1 << 63, 1<<63 + curSlot, 1<<63 + curSlot + 1, 1<<63 + edge + spe, 1<<64 - 1, ^uint64(0) - spe + 1, ^uint64(0) / spe}
 		if curSlot >= 3*spe { // duties whose deadline has passed
 			slots = append(slots, curSlot-1, curSlot-spe, curSlot-spe-1, curSlot-2*spe-1, curSlot-3*spe)
 		}
@@ -625,7 +644,7 @@ func (h *vH) runRealGater(t *testing.T, n int) {
 				duty := core.Duty{Slot: slot, Type: typ}
 				v := w.newValue(2, byte(slot))
 				m := w.mk(qbft.MsgCommit, duty, int(slot%uint64(n)), 1, v.hash, 0, [32]byte{}, nil, v)
-				w.call(e, vWire(m), vCase{base: -1, class: "env-gater-real", path: "msg.duty.slot", op: fmt.Sprintf("now=slot %d, duty slot=%d type=%s (real gater, real deadliner)", curSlot, slot, typ), expect: "model"})
+				w.call(e, vWire(m), vCase{base: -1, class: class, path: "msg.duty.slot", op: fmt.Sprintf("now=genesis%+v (slot duration %v, %d slots/epoch), duty slot=%d type=%s (real gater, real deadliner)", off, slotDur, spe, slot, typ), expect: "model"})
 				w.maybeDrain(duty)
 			}
 		}
